@@ -38,6 +38,13 @@ theorem pn_roundtrip_abs (len : Nat) (hl : 1 ≤ len ∧ len ≤ 4) (pn L : Int)
   have : len = 1 ∨ len = 2 ∨ len = 3 ∨ len = 4 := by omega
   rcases this with rfl | rfl | rfl | rfl <;> simp only [Nat.reduceMul, Nat.reducePow, Int.reducePow] at * <;> omega
 
+/-- `pn_decode_range`: for EVERY receiver state below the last packet number and every well-formed truncated
+    number, the decoder returns a valid packet number (0 ≤ · < 2^62) congruent to what was on the wire -/
+theorem pn_decode_range (len : Nat) (hl : 1 ≤ len ∧ len ≤ 4) (largest t : Int)
+    (hL : -1 ≤ largest ∧ largest + 1 < 2 ^ 62) (ht : 0 ≤ t ∧ t < 2 ^ (8 * len)) :
+    0 ≤ decodePN len largest t ∧ decodePN len largest t < 2 ^ 62 ∧ decodePN len largest t % 2 ^ (8 * len) = t :=
+  decode_range len hl largest t hL.1 hL.2 ht.1 ht.2
+
 /-- what `PacketNumberLengthForHeader` guarantees about the length it picks (`-1` = nothing acknowledged:
     `pn + 1 = pn - (-1)`) -/
 theorem pnLen_spec (pn la : Int) :
